@@ -59,6 +59,33 @@ def valid_cap_value(code, rng):
     return r(rng.below(8))
 
 
+def adversarial_cap(rng):
+    """(code, value) of a capability whose inner count / length fields sit at their extremes or disagree with the octets present:
+    what a decoder's arithmetic on those fields has to survive"""
+    r = lambda n: bytes(rng.below(256) for _ in range(n))
+    code = rng.choice([1, 3, 130, 5, 8, 64, 65, 67, 68, 69, 71, 73, 75, 76, 131, 9])
+    if code in (3, 130):
+        cnt = rng.choice([0, 1, 2, 3, 63, 64, 127, 128, 129, 200, 254, 255])
+        present = rng.choice([0, 1, 2, 3, cnt if cnt < 100 else 3])
+        return code, struct.pack('>HBB', rng.choice([1, 2]), 0, rng.choice([1, 2, 128])) + bytes([cnt]) + r(2 * present) + r(rng.choice([0, 0, 1]))
+    if code == 73:
+        a = rng.choice([0, 1, 5, 127, 128, 250, 255])
+        host = r(min(a, rng.choice([0, 1, 5, 250])))
+        b = rng.choice([0, 1, 5, 128, 255])
+        dom = r(min(b, rng.choice([0, 1, 5])))
+        return code, bytes([a]) + host + (bytes([b]) + dom if rng.chance(3, 4) else b'')
+    if code in (75, 76):
+        a = rng.choice([0, 1, 9, 127, 128, 254, 255])
+        return code, bytes([a]) + r(min(a, rng.choice([0, 1, 9, 250])))
+    if code == 69:
+        n = rng.choice([1, 2, 3, 63])
+        v = b''.join(struct.pack('>HBB', rng.choice([0, 1, 2, 65535]), rng.choice([0, 1, 128, 255]), rng.choice([0, 1, 2, 3, 4, 255])) for _ in range(n))
+        return code, (v + r(rng.choice([0, 0, 1, 3])))[:255]
+    k = {1: 4, 5: 6, 8: 4, 64: 4, 65: 4, 67: 1, 68: 1, 71: 7, 131: 1, 9: 1}[code]
+    base = {64: 2}.get(code, 0)
+    return code, r(max(0, base + k * rng.choice([0, 1, 2, 36]) + rng.choice([-1, 0, 0, 1, 2, 3])) % 256)
+
+
 def encode_open(ver, asn, hold, ident, params, length_override=None):
     """params: list of ('caps', [(code, value)]) or ('raw', typ, value)"""
     pb = b''
@@ -89,6 +116,12 @@ def gen(ctx):
             if code == 69 and ln >= 4:
                 v = v[:3] + bytes([rng.below(5)]) + v[4:]
             add('OPEN', encode_open(4, 65000, 90, b'\x0a\x00\x00\x01', [('caps', [(code, v)])]).hex(), ('single', code, v))
+    # 1b. capabilities whose inner count / length fields are at their extremes or disagree with what is there
+    for _ in range(600 if quick else 20000):
+        c, v = adversarial_cap(rng)
+        if len(v) > 250:
+            continue
+        add('OPEN', encode_open(4, 65000, 90, b'\x0a\x00\x00\x01', [('caps', [(c, v)])]).hex(), ('single', c, v))
     # 2. structured valid OPENs
     n = 1500 if quick else 60000
     codes = [0, 1, 2, 3, 5, 6, 8, 9, 64, 65, 66, 67, 68, 69, 70, 71, 73, 75, 76, 128, 130, 131, 4, 7, 10, 63, 72, 74, 77, 129, 200, 255]
